@@ -26,18 +26,19 @@ func init() {
 			"thrown class, return value (deep), receiver afterwards (every own property with value and attributes, so partial effects before a TypeError count), callback/getter/setter log, " +
 			"and the length invariant evaluated on the real array. Trivial = the call throws TypeError by construction before anything is touched (non-callable callback).",
 		Families: []engine.Family{
-			{Name: "access", Run: runAccess},
-			{Name: "stack", Run: runStack},
-			{Name: "slice", Run: runSlice},
-			{Name: "splice", Run: runSplice},
-			{Name: "search", Run: runSearch},
-			{Name: "iterate", Run: runIterate},
-			{Name: "reduce", Run: runReduce},
-			{Name: "sort", Run: runSort},
+			// cheap families first: when the time budget runs out the large enumerations are the ones cut short
 			{Name: "ctor", Run: runCtor},
 			{Name: "canon", Run: runCanon},
 			{Name: "length", Run: runLength},
+			{Name: "sort", Run: runSort},
 			{Name: "hist", Run: runHist},
+			{Name: "stack", Run: runStack},
+			{Name: "access", Run: runAccess},
+			{Name: "reduce", Run: runReduce},
+			{Name: "iterate", Run: runIterate},
+			{Name: "search", Run: runSearch},
+			{Name: "slice", Run: runSlice},
+			{Name: "splice", Run: runSplice},
 		},
 		Assumptions: []string{
 			"ref/objmodel is a faithful transcription of ES5.1 15.4 (trusted; validated against V8 at development time)",
